@@ -39,6 +39,27 @@ class ContinueSignal(Exception):
     pass
 
 
+class KwView(dict):
+    """keyword arguments of a call as a callee contract reads them: parameters passed positionally can be looked up by name"""
+
+    def __init__(self, kwargs, params, args):
+        super().__init__(kwargs)
+        self._pos = {p: a for p, a in zip(params, args)}
+
+    def __missing__(self, key):
+        if key in self._pos:
+            return self._pos[key]
+        raise KeyError(key)
+
+    def get(self, key, default=None):
+        if dict.__contains__(self, key):
+            return dict.__getitem__(self, key)
+        return self._pos.get(key, default)
+
+    def __contains__(self, key):
+        return dict.__contains__(self, key) or key in self._pos
+
+
 class Closure:
     def __init__(self, node, frame, module, qualname, cls=None, defaults=None):
         self.node, self.frame, self.module, self.qualname, self.cls = node, frame, module, qualname, cls
@@ -378,14 +399,16 @@ class Interp:
         if isinstance(fn, FuncRef):
             model = self.registry.models.get(fn.qualname) if self.registry else None
             if model is not None and fn.qualname not in self.registry.inline_now:
-                return model(self, list(args), kwargs)
+                a2, k2 = self.positional_form(fn.node, args, kwargs)
+                return model(self, a2, k2)
             if self.registry is not None and getattr(self.registry, 'memo', False) and memo_decorated(fn.node):
                 return self.call_memoised(fn, args, kwargs)
             return self.run_function(fn.node, fn.module, None, fn.qualname, fn.cls, args, kwargs)
         if isinstance(fn, Closure):
             model = self.registry.models.get(fn.qualname) if self.registry else None
             if model is not None and fn.qualname not in self.registry.inline_now:
-                return model(self, list(args), kwargs)
+                a2, k2 = self.positional_form(fn.node, args, kwargs)
+                return model(self, a2, k2)
             return self.run_function(fn.node, fn.module, fn.frame, fn.qualname, fn.cls, args, kwargs, defaults=fn.defaults)
         if isinstance(fn, ClassRef):
             return self.instantiate(fn, args, kwargs)
@@ -404,6 +427,23 @@ class Interp:
         if callable(fn) and getattr(fn, '_pyvc_model', False):
             return fn(self, list(args), kwargs)
         raise Unsupported('call of %r' % (fn,))
+
+    @staticmethod
+    def positional_form(node, args, kwargs):
+        """a callee contract (model) sees the call independently of the call style: `args` is the positional form (keyword
+        arguments that name the next positional parameters are appended), and `kwargs` also answers for parameters that
+        were passed positionally -- so f(a, b), f(a, y=b) and f(x=a, y=b) reach the model alike, whichever way it reads them"""
+        try:
+            params = [p.arg for p in node.args.posonlyargs + node.args.args]
+        except AttributeError:
+            return list(args), kwargs
+        a2 = list(args)
+        for p in params[len(a2):]:
+            if p in kwargs:
+                a2.append(kwargs[p])
+            else:
+                break
+        return a2, KwView(kwargs, params, list(args))
 
     def call_memoised(self, fn, args, kwargs):
         """functools.lru_cache / cache (ASSUMED contract): a table keyed by the call's positional
